@@ -1188,6 +1188,12 @@ impl StyleCase {
                 if self.seed % 3 == 0 {
                     layout.pct_xf_apply_flag = 100;
                 }
+                // … and the other half writes the text of every number's <v> in pieces (comment / PI / CDATA in between):
+                // the serial value must come through unchanged
+                layout.v_split_cdata = true;
+                if self.seed % 2 == 1 {
+                    layout.pct_v_split = 100;
+                }
                 let decode = format!("xlsxstyles {}", xlsxw::ev_wire(&xlsxw::render_styles(&book, &layout)));
                 (book.build(&layout).bytes, expect, decode, plain)
             }
@@ -1197,6 +1203,12 @@ impl StyleCase {
                 book.fmts = self.defs.iter().map(|(id, f)| (*id, f.render())).collect();
                 book.xfs = Some(self.xfs.clone());
                 book.framing = if rng.chance(1, 2) { xlsbw::Framing::Minimal } else { xlsbw::Framing::Random(rng.next()) };
+                // other records inside the BrtBeginFmts … BrtEndFmts list (half of the workbooks), and the byte after
+                // iStyleRef in every cell header (fPhShow and reserved bits) set at random: both from their own stream
+                if self.seed % 2 == 0 {
+                    book.fmts_interleave = Some(self.seed);
+                }
+                let mut frng = Rng::new(self.seed ^ 0xF1A6_5B17);
                 let mut sh = xlsbw::XlsbSheet::new("S");
                 for i in 0..self.xfs.len() {
                     let v0 = *rng.pick(&FILE_VALUES);
@@ -1204,13 +1216,13 @@ impl StyleCase {
                     let v2 = *rng.pick(&FILE_VALUES);
                     let n3 = *rng.pick(&[44197i32, 0, 1, -7, 36526, 59, 61]);
                     let d100 = rng.chance(1, 3);
-                    sh.set(i as u32, 0, xlsbw::BVal::real(v0)).style = i as u32;
+                    sh.set(i as u32, 0, xlsbw::BVal::real(v0)).style = i as u32 | ((*frng.pick(&[0u32, 1, 1, 0x80, 0xFE, 0xFF])) << 24);
                     let bits = v1.to_bits() & 0xFFFF_FFFC_0000_0000;
-                    sh.set(i as u32, 1, xlsbw::BVal::rk_float(bits, false)).style = i as u32;
+                    sh.set(i as u32, 1, xlsbw::BVal::rk_float(bits, false)).style = i as u32 | ((*frng.pick(&[0u32, 1, 1, 0x80, 0xFE, 0xFF])) << 24);
                     let c = sh.set(i as u32, 2, xlsbw::BVal::real(v2));
-                    c.style = i as u32;
+                    c.style = i as u32 | ((*frng.pick(&[0u32, 1, 1, 0x80, 0xFE, 0xFF])) << 24);
                     c.fmla = Some(xlsbw::Fmla::trivial());
-                    sh.set(i as u32, 3, xlsbw::BVal::rk_int(n3, d100)).style = i as u32;
+                    sh.set(i as u32, 3, xlsbw::BVal::rk_int(n3, d100)).style = i as u32 | ((*frng.pick(&[0u32, 1, 1, 0x80, 0xFE, 0xFF])) << 24);
                     expect.push(vec![v0, f64::from_bits(bits), v2, if d100 { n3 as f64 / 100.0 } else { n3 as f64 }]);
                 }
                 book.sheets.push(sh);
@@ -2306,6 +2318,20 @@ fn main() {
     //   m12 — applyNumberFormat="0" / xfId on a cell <xf> must not replace its own numFmtId (seed % 3 == 0: every xf flagged)
     //   m11 — xls: a FORMAT record that re-declares a built-in id and stands AFTER the XF records still counts
     //   m10 — ß ſ ﬆ ẖ ẙ … written without quotes are literal text, not the date letters their upper-casing starts with
+    //   m15 — the text of a number's <v> written in pieces must be read as their concatenation (odd seeds)
+    //   m16 — xlsb: the flags byte after iStyleRef must not reach the style index;  m14 — records that are not BrtFmt
+    //         inside the format list must not use up the declared count (even seeds)
+    for seed in [7u64, 9, 11, 6, 8, 10] {
+        let el = Fmt { sections: vec![vec![Tok::Elapsed("h".into()), Tok::Num(':'), Tok::DateTok("mm".into())]] };
+        let da = Fmt { sections: vec![vec![Tok::DateTok("yyyy".into()), Tok::Num('-'), Tok::DateTok("mm".into())]] };
+        let nu = Fmt { sections: vec![vec![Tok::Num('0'), Tok::Num('.'), Tok::Num('0')]] };
+        for kind in ["xlsx", "xlsb"] {
+            let c = StyleCase { kind, defs: vec![(164, nu.clone()), (165, el.clone()), (166, da.clone()), (167, da.clone())], xfs: vec![0, 164, 165, 166, 167, 14, 46], date1904: seed % 4 == 3, seed };
+            check_file(&c, &mut drv, &mut out, false);
+            out.cases.push((c.wire(), true));
+            out.count("corpus");
+        }
+    }
     for seed in [6u64, 12, 18, 24, 30, 36] {
         let c = StyleCase { kind: "xlsx", defs: vec![], xfs: vec![0, 14, 46, 2, 22, 21], date1904: seed % 4 == 0, seed };
         check_file(&c, &mut drv, &mut out, false);
